@@ -54,6 +54,8 @@ fn gen_chain(g: &mut G, first_path: &str) -> Graph {
             1 => (format!("/hop{}?same=authority", i + 1), "absolute-path"),
             _ => {
                 let h = *g.pick(CHAIN_HOSTS);
+                // (no draw) a name without a dot is a host all the same
+                let h = if h == "c.test" && i % 2 == 0 { "intranet" } else { h };
                 (format!("//{}/hop{}", h, i + 1), "scheme-relative")
             }
         };
